@@ -148,7 +148,18 @@ Extract(op) ==
     IF t = <<>> THEN res' = Err("EntryNotFound") /\ UNCHANGED <<disk, hd>>
     ELSE LET sri == t[1]
              b   == BytesAt(Addr(sri)) IN
-         IF b = "ABSENT" THEN res' = Err("IoNotFound") /\ UNCHANGED <<disk, hd>>
+         IF b = "ABSENT" /\ op.kind = "hard_link" /\ ~op.checked
+            /\ Present(Addr(sri)) /\ store[Addr(sri)].k = "link"
+         THEN \* link(2) does not follow a symlink: the unchecked hard link of a linked entry whose
+              \* target is gone succeeds and leaves an equally dangling link at the destination
+              IF op.to \in DOMAIN ext THEN res' = Err("IoExists") /\ UNCHANGED <<disk, hd>>
+              ELSE /\ ext' = Upd(ext, op.to, "UNREADABLE") /\ res' = Ok("unit")
+                   /\ UNCHANGED <<buckets, store, tmp, hasIndex, hd>>
+         ELSE IF b = "ABSENT"
+         THEN \* (reflink-copy reports a source that is not an existing regular file as InvalidInput;
+              \* only the unchecked reflink gets that far, the checked ones fail on opening it)
+              /\ res' = IF op.kind = "reflink" /\ ~op.checked THEN Err("IoOther") ELSE Err("IoNotFound")
+              /\ UNCHANGED <<disk, hd>>
          ELSE IF op.checked /\ ~Verify(sri, b)
               THEN res' = Err("Integrity") /\ UNCHANGED <<disk, hd>>     \* nothing left behind
          ELSE IF op.kind = "copy"
